@@ -1,11 +1,11 @@
-\* quick: family B with <= 2 documents x <= 2 events, family A with <= 1 document x <= 2 events
+\* quick: family B with <= 2 documents x <= 2 events (full alphabet), family A with <= 1 document x <= 1 event
 CONSTANTS
   MaxDocs = 2
   MaxEv = 2
   MaxDocsA = 1
-  MaxEvA = 2
-  Scenarios <- MCScenarios
-INIT Init
+  MaxEvA = 1
+  Rich = TRUE
+INIT MCInit
 NEXT Next
 INVARIANTS TypeOK StdoutIsRenderedOutputs StderrIsDiagnostics EndState StatusBookkeeping HaltStops AllInputsProcessed StatusTable
 PROPERTIES NothingAfterHalt StdoutOnlyGrows ExitSetOnce
